@@ -10,6 +10,8 @@ from ..core import Ctx, enc
 from ..gen.project import Unit, build_system
 from .. import namesdump as nd
 
+Q3 = "'" * 3
+
 THEOREMS = [
     # the re-export move (Registry.reparent) over any state satisfying the C02 invariant
     "Registry.reparent_once", "Registry.no_key_under_old_name", "Registry.reparent_leaves_alias",
@@ -76,7 +78,9 @@ def gen_project(rng) -> Tuple[List[Unit], Dict[str, Any]]:
     definer = []
     if objkind == "class":
         definer += ["class %s:" % cn, "    '''doc of X unique'''", "    def m(self):", "        '''m doc'''",
-                    "    def m2(self): pass", "    class Inner:", "        def im(self): pass"]
+                    "    def m2(self): pass", "    class Inner:", "        def im(self): pass",
+                    # members reached by DOTTED references through the class (seeded C07-r5-1): a constant, a nested exception
+                    "    FAST = 1", "    %sfast doc%s" % (Q3, Q3), "    class Error(Exception):", "        %serr doc%s" % (Q3, Q3)]
         if rng.random() < 0.3:
             definer += ["    def m(self): return 2"]       # superseded member
     else:
@@ -162,6 +166,11 @@ def gen_project(rng) -> Tuple[List[Unit], Dict[str, Any]]:
         use = local[0]
         if objkind == "class":
             lines += ["class K_%s(%s):" % (cname, use), "    '''see L{%s} and L{%s.X} and L{%s.%s}'''" % (use, D, reexp_q, exported)]
+        if objkind == "class":
+            # dotted references THROUGH the class, by each local name: annotation, default value, return annotation, @raise
+            for ln in local:
+                lines += ["def f_%s_%s(a: %s.Inner, b=%s.FAST) -> %s.Inner:" % (cname, ln, ln, ln, ln),
+                          "    %s" % Q3, "    does it", "    @raise %s.Error: when it cannot" % ln, "    %s" % Q3]
         lines += ["v_%s: %s = None" % (cname, local[-1]), "'''var, see L{%s}'''" % local[-1]]
         (outer if where == "top" else sibs).append(Unit(where + "." + cname, False, "\n".join(lines) + "\n", where))
         consumers.append({"module": where + "." + cname, "form": form, "locals": local, "use": use, "cname": cname,
@@ -182,7 +191,7 @@ def gen_project(rng) -> Tuple[List[Unit], Dict[str, Any]]:
             "definer_all": b_all, "definer_imports_reexporter": cyclic, "consumers": consumers, "imported_twice": twice, "definer_also_imports": speedups,
             "definer": D, "defined_as": cn, "package": P, "nested": nested, "definer_imports_package_first": back_import,
             "alias_in_definer": alias_def, "named_like_module": same_name, "companion": companion, "published_var": pub,
-            "all_annotated": all_annotated}
+            "all_annotated": all_annotated, "members": ["m", "m2", "Inner", "Inner.im", "FAST", "Error"]}
     return units + sibs + outer, meta
 
 
@@ -252,7 +261,8 @@ class Clock:
 # set that defect explains, they are reported under the defect's own signature; anything else is reported as it is
 _DEFINER_REFS = {"consumer-import-from-definer:unresolved", "base-via-definer:before-move:unresolved", "base-via-definer:after-move:unresolved",
                  "xref-via-definer-import:unresolved", "xref-via-qualified-name:unresolved", "annotation-via-definer-import:unlinked",
-                 "find_object-old-name"}
+                 "find_object-old-name",
+                 "dotted-annotation-via-definer-import:unlinked", "dotted-default-via-definer-import:unlinked", "dotted-raise-via-definer-import:unlinked"}
 SHAPES = [
     # (meta key, signature, the failures the defect explains)
     # (the displaced module is not found by a later `from .X import inst` of the package either)
@@ -364,7 +374,8 @@ def oracle(ctx, system, clk, meta, order, payload) -> None:
         if stale:
             ctx.fail(sigbase + ":still-under-definer", payload, f"{stale} still registered")
     if meta["objkind"] == "class":
-        for mem in ("m", "m2", "Inner", "Inner.im"):
+        # (corpus projects generated before the class had a constant and a nested exception carry no "members")
+        for mem in meta.get("members", ("m", "m2", "Inner", "Inner.im")):
             if system.allobjects.get(target_name + "." + mem) is None:
                 ctx.fail(sigbase + ":member-lost", payload, f"{target_name}.{mem} not registered")
     # (2) every reference reaches it (the property speaks about moved objects only)
@@ -403,6 +414,30 @@ def oracle(ctx, system, clk, meta, order, payload) -> None:
                     if t is not obj:
                         via = "definer-import" if ident == "XD" else ("reexporter-import" if ident == "XR" else "qualified-name")
                         ctx.fail("xref-via-%s:unresolved" % via, payload, f"docstring reference {ident!r} in {k!r} -> {t!r}")
+    # dotted references through the moved class (nested class, class constant, nested exception) in an annotation, a default
+    # value and a @raise field of a consumer's function, by the name imported from the definer and from the re-exporter
+    if moved_expected and meta["objkind"] == "class":
+        from pydoctor import epydoc2stan
+        from pydoctor.stanutils import flatten
+        from pydoctor.templatewriter.pages import format_signature
+        for c in meta["consumers"]:
+            for ln in c["locals"]:
+                fn = system.allobjects.get("%s.f_%s_%s" % (c["module"], c["cname"], ln))
+                if fn is None:
+                    continue
+                via = "definer-import" if ln == "XD" else "reexporter-import"
+                try:
+                    with contextlib.redirect_stdout(io.StringIO()):
+                        sig_html = flatten(format_signature(fn))
+                        doc_html = flatten(epydoc2stan.format_docstring(fn))
+                except Exception as e:
+                    ctx.fail("dotted-reference:render-crash:" + type(e).__name__, payload, f"{fn.fullName()}: {type(e).__name__}: {e}")
+                    continue
+                for what, mem, html in (("annotation", "Inner", sig_html), ("default", "FAST", sig_html), ("raise", "Error", doc_html)):
+                    tgt = system.allobjects.get(target_name + "." + mem)
+                    if tgt is not None and not _links_to(html, tgt):
+                        ctx.fail("dotted-%s-via-%s:unlinked" % (what, via), payload,
+                                 f"`{ln}.{mem}` in the {what} of {fn.fullName()} is not linked to {tgt.fullName()} ({tgt.url}): {html[:300]!r} (order {order})")
     # an annotation that names the object through either import links to its one page; so does the docstring of the
     # annotated variable.  The variable may have been re-exported itself (by one more module): the references inside it
     # are still references to the object
